@@ -52,7 +52,7 @@ PROPS = {
     ),
     "C12": dict(
         title="Span and SignedDuration are faithful value types with enforced limits",
-        verus=["sdur"],
+        verus=["sdur", "span"],
         kani_quick=[], kani_thorough=[],
         design_ref="DESIGN.md section 4, C12",
     ),
@@ -78,7 +78,7 @@ PROPS = {
     ),
     "C05": dict(
         title="Fallible operations return errors: no panics, no out-of-range results",
-        verus=["posix", "tzif", "rounders", "sdur", "zoned"],
+        verus=["posix", "tzif", "rounders", "sdur", "zoned", "span"],
         all_fns=True,
         kani_quick=["c01_civil", "c02_wrappers"],
         kani_thorough=[],
